@@ -49,7 +49,7 @@ type KnownFinding struct {
 
 func loadKnownFindings() []KnownFinding {
 	var out []KnownFinding
-	f, err := os.Open(filepath.Join(verifDir, "known_findings.jsonl"))
+	f, err := os.Open(filepath.Join(envOr("GOVC_FROZEN", verifDir), "known_findings.jsonl"))
 	if err != nil {
 		return nil
 	}
@@ -73,7 +73,7 @@ type Baseline map[string]map[string]string // property -> obligation name -> sta
 
 func loadBaseline() Baseline {
 	b := Baseline{}
-	data, err := os.ReadFile(filepath.Join(verifDir, "baseline", "obligations.json"))
+	data, err := os.ReadFile(filepath.Join(envOr("GOVC_FROZEN", verifDir), "baseline", "obligations.json"))
 	if err != nil {
 		return b
 	}
